@@ -235,3 +235,23 @@ def all_defs(expr, at, func=None):
     for nm, val, st in reaching_of(func).reaching(at, expr.id):
         out.append(val if isinstance(val, ast.AST) else None)
     return out or [expr]
+
+
+def none_default_rebinds(func):
+    """For every parameter of func whose default is None: the statements `p = <expr>` that rebind it,
+    with the facts that guard them.  Yields (assign node, param name, guarded_by_is_none: bool, facts)."""
+    a = func.args
+    pos = a.posonlyargs + a.args
+    defaults = [None] * (len(pos) - len(a.defaults)) + list(a.defaults)
+    none_params = {p.arg for p, d in zip(pos, defaults) if isinstance(d, ast.Constant) and d.value is None}
+    none_params |= {p.arg for p, d in zip(a.kwonlyargs, a.kw_defaults) if isinstance(d, ast.Constant) and d.value is None}
+    out = []
+    for n in walk_no_nested(func):
+        if isinstance(n, ast.Assign) and len(n.targets) == 1 and isinstance(n.targets[0], ast.Name) and n.targets[0].id in none_params:
+            p = n.targets[0].id
+            facts = inline_facts(func, n)
+            raw = cfg_of(func).facts(n)
+            by_none = any(unparse(e) == f"{p} is None" and pol for e, pol in raw)
+            by_truth = any(unparse(e) == p and pol is False for e, pol in raw)
+            out.append((n, p, by_none, by_truth, raw))
+    return out
